@@ -17,6 +17,7 @@ package main
 import (
 	"bytes"
 	"crypto/ecdsa"
+	"encoding/binary"
 	"encoding/hex"
 	"encoding/json"
 	"fmt"
@@ -65,7 +66,8 @@ type appObs struct {
 	Counter  string            `json:"counter"`
 	Slots    map[string]string `json:"store_slots"`
 	KV       map[string]string `json:"kv"`
-	Receipts map[string]string `json:"receipts"` // tx hash -> digest of the stored receipt ("" = none)
+	KVHist   map[string]uint64 `json:"kv_history_lengths"` // key -> number of recorded updates (a block applied twice adds entries)
+	Receipts map[string]string `json:"receipts"`           // tx hash -> digest of the stored receipt ("" = none)
 	Balances map[string]string `json:"balances"`
 	Height   int64             `json:"app_height"`
 	AppHash  string            `json:"app_hash"`
@@ -225,7 +227,7 @@ func digest8(b []byte) string {
 // observeApp reads the application state through its query interface. The application must
 // have executed a block in this process (contract reads need its current header).
 func observeApp(app queryer, txs []txRec) appObs {
-	o := appObs{Nonces: map[string]uint64{}, Slots: map[string]string{}, KV: map[string]string{}, Receipts: map[string]string{}, Balances: map[string]string{}}
+	o := appObs{Nonces: map[string]uint64{}, KVHist: map[string]uint64{}, Slots: map[string]string{}, KV: map[string]string{}, Receipts: map[string]string{}, Balances: map[string]string{}}
 	accts := []*ecdsa.PrivateKey{keyA, keyB, keyC, keyT}
 	for i := 0; i < 24; i++ {
 		accts = append(accts, adminAcct(i))
@@ -246,6 +248,12 @@ func observeApp(app queryer, txs []txRec) appObs {
 		key := []byte(fmt.Sprintf("c13-key-%d", i))
 		r := app.Query(append([]byte{ctypes.QueryType_Key}, key...))
 		o.KV[string(key)] = fmt.Sprintf("%v:%x", r.Code, r.Data)
+		page := make([]byte, 8)
+		binary.BigEndian.PutUint32(page[0:4], 1)
+		binary.BigEndian.PutUint32(page[4:8], 1)
+		var hist gtypes.ValueHistoryResult
+		rlp.DecodeBytes(app.Query(append([]byte{ctypes.QueryType_Key_Update_History}, append(page, key...)...)).Data, &hist)
+		o.KVHist[string(key)] = uint64(hist.Total)
 	}
 	for _, t := range txs {
 		raw, _ := hex.DecodeString(t.Raw)
